@@ -88,18 +88,6 @@ func (server *Server) registerSugarExecutors() {
 	})
 
 	server.RegisterExexutor("GETRANGE", func(conn *Conn, cmd string, args Arguments) (*Message, error) {
-		rageValidiator := func(val int, max int) int {
-			if val < 0 {
-				val = max + val
-				if val < 0 {
-					return 0
-				}
-			}
-			if max < val {
-				val = max - 1
-			}
-			return val
-		}
 		key, err := nextKeyArgument(cmd, args)
 		if err != nil {
 			return nil, err
@@ -114,14 +102,36 @@ func (server *Server) registerSugarExecutors() {
 		}
 		getRet, err := server.userCommandHandler.Get(conn, key)
 		if err != nil {
-			return NewNilMessage(), nil
+			return nil, err
 		}
 		getVal, err := getRet.String()
 		if err != nil {
-			return NewNilMessage(), nil
+			// A missing key is an empty string.
+			return NewBulkMessage(""), nil
 		}
-		start = rageValidiator(start, len(getVal))
-		end = rageValidiator(end, len(getVal))
+		// Index normalization of Redis: negative indexes count from the end, both are clamped.
+		strLen := len(getVal)
+		if start < 0 && end < 0 && start > end {
+			return NewBulkMessage(""), nil
+		}
+		if start < 0 {
+			start = strLen + start
+		}
+		if end < 0 {
+			end = strLen + end
+		}
+		if start < 0 {
+			start = 0
+		}
+		if end < 0 {
+			end = 0
+		}
+		if strLen <= end {
+			end = strLen - 1
+		}
+		if strLen == 0 || end < start {
+			return NewBulkMessage(""), nil
+		}
 		return NewBulkMessage(getVal[start:(end + 1)]), nil
 	})
 
